@@ -190,6 +190,7 @@ func reassemblyCapDefect(t *testing.T) bool {
 		frames := encode(t, 7, 0x77, dataplane.VerifMinMTU, pkts)
 		out := &sink{}
 		w := dataplane.NewVerifWorker(7, out)
+		defer w.Close() // frames left in reassembly lists go back to the shared pool
 		for _, f := range frames {
 			w.Feed(f)
 		}
@@ -224,6 +225,7 @@ func TestC41(t *testing.T) {
 			frames := encode(t, 7, 0x1234, mtu, pkts)
 			out := &sink{}
 			w := dataplane.NewVerifWorker(7, out)
+			defer w.Close() // frames left in reassembly lists go back to the shared pool
 			for i, f := range frames {
 				if len(f) > mtu {
 					rt.Fatalf("frame %d has %d bytes, frame size is %d", i, len(f), mtu)
@@ -389,6 +391,7 @@ func TestC41(t *testing.T) {
 			}
 			out := &sink{}
 			w := dataplane.NewVerifWorker(7, out)
+			defer w.Close() // frames left in reassembly lists go back to the shared pool
 			for _, f := range all {
 				w.Feed(f)
 			}
